@@ -11,7 +11,7 @@ Proof. intros H. apply tri_intersect_spec in H. destruct H as (A & B & _). split
 
 Lemma disk_basic_sound_geo (d : Disk R) (ray : Ray R) (p : V) (phi : R) : disk_wf d ->
   disk_basic_intersection d ray = Some (p, phi) ->
-  (exists t, 0 <= t /\ p = ray_project ray t) /\
+  (exists t, 0 < t /\ p = ray_project ray t) /\
   vdot (dk_normal d) (vsub p (dk_centre d)) = 0 /\
   dk_inner d * dk_inner d <= vlen2 (vsub p (dk_centre d)) <= dk_radius d * dk_radius d /\
   exists rho, dk_inner d <= rho <= dk_radius d /\ 0 <= phi <= dk_phi_max d /\ phi < 2 * PI /\ p = disk_point d rho phi.
@@ -23,7 +23,7 @@ Qed.
 
 Lemma disk_intersect_tr_sound (d : Disk R) (t : T) (ray : Ray R) (i : Info R) : disk_wf d -> dk_transform d = Some t -> Inv t ->
   disk_intersect d ray = Some i ->
-  exists pl, ip i = tr_pt t pl /\ on_disk d pl /\ exists s, 0 <= s /\ ip i = ray_project ray s.
+  exists pl, ip i = tr_pt t pl /\ on_disk d pl /\ exists s, 0 < s /\ ip i = ray_project ray s.
 Proof.
   intros W Et Hi H. destruct (disk_intersect_tr_spec d t ray i W Et Hi H) as (il & _ & _ & Hon & Hp & Hs & _).
   exists (ip il). auto.
